@@ -290,6 +290,15 @@ class Check(PropertyCheck):
         out += self.check_privacy()
         if self.tier != 'quick':
             out += self.check_extraction()
+        # the driver only calls search() when there is no oracle failure at all; the known findings always are
+        # oracle failures here, so widen the search ourselves when the model/implementation tie broke and every
+        # oracle failure at hand is a known one
+        known = self.known_entries()
+        if any(v.kind != 'oracle' for v in out) and \
+                all(self.classify_known(v, known) is not None for v in out if v.kind == 'oracle'):
+            self._searched = self._in_search = True
+            out += self.search([v for v in out if v.kind != 'oracle'])
+            self._in_search = False
         return out
 
     def add(self, out: List[Violation], v: Violation, limit: int = 12) -> None:
@@ -645,6 +654,11 @@ class Check(PropertyCheck):
     def search(self, broken: List[Violation]) -> List[Violation]:
         """the oracle alone (no model) on a larger stream against the real code"""
         found: List[Violation] = []
+        known = self.known_entries()
+        fresh = lambda: any(self.classify_known(v, known) is None for v in found)
+        if getattr(self, '_searched', False) and not getattr(self, '_in_search', False) and broken and \
+                all(b.kind == 'correspondence' for b in broken):
+            return []        # already done from correspondence()
         # (i) the diverging inputs themselves
         for b in broken:
             c = b.case
@@ -653,8 +667,9 @@ class Check(PropertyCheck):
                 o = qn_oracle(c['pattern'], c['name'], i)
                 if o:
                     found.append(Violation('oracle', o, case=c, observed=i))
-        if found:
+        if fresh():
             return found
+        self.notes.append('search: widened oracle run against the real code (patterns <= 5 x 341 names, thorough parse/rule-list/random streams)')
         # (ii) patterns up to length 5, all names
         names = all_names(NAME_ALPHA, NAME_MAXLEN)
         pats = [''.join(t) for k in range(6) for t in itertools.product(PAT_ALPHA, repeat=k)] + self.corpus_patterns()
@@ -667,9 +682,9 @@ class Check(PropertyCheck):
                 name = self.first_diff([0, w], i, names)
                 o = [0, int(unpack(i[1], len(names))[names.index(name)])]
                 found.append(Violation('oracle', qn_oracle(p, name, o) or '', case={'kind': 'qnmatch', 'pattern': p, 'name': name}, observed=o))
-            if len(found) > 200:
+            if len(found) > 200 and fresh():
                 break
-        if found:
+        if fresh():
             return found
         # (iii) a larger random stream of pairs, parse values and rule lists
         saved = self.tier
@@ -680,7 +695,7 @@ class Check(PropertyCheck):
                 o = parse_oracle(v, i)
                 if o:
                     found.append(Violation('oracle', o, case={'kind': 'parse', 'value': v}, observed=i))
-            if found:
+            if fresh():
                 return found
             cases = self.privacy_cases()
             impl2 = lib.run_impl_worker('c13_privacy.py', cases, jobs=16)
@@ -689,7 +704,7 @@ class Check(PropertyCheck):
                     pv = privacy_violation({'kind': 'privacy', 'rules': c['rules'], 'queries': c['queries'], 'index': k}, o)
                     if pv:
                         found.append(pv)
-            if found:
+            if fresh():
                 return found
             pairs = []
             for _ in range(6000):
